@@ -986,7 +986,7 @@ def conc_corerace_gen(tier, seed):
 
 
 def conc_stress_gen(tier, seed):
-    return [["gen", seed, 120000 if tier == "quick" else 3000000, "stress"]]
+    return [["gen", seed, 240000 if tier == "quick" else 3000000, "stress"]]
 
 
 def conc_slot_gen(tier, seed):
@@ -1027,7 +1027,7 @@ PROPS["C08"] = {
             "half of the schedules are ONE-PREEMPTION schedules (thread a passes k<28 points — among them poll_next:settled, between "
             "a hosted command's last look at its ready queue and its return — then thread b runs to its end, then a resumes), and a "
             "third of the cases are sibling work inside one command (two requests / streams of one and / all / task pair answered "
-            "concurrently). stress: 120 000 / 3 000 000 free-running rounds on real threads (no schedule) of five fixed histories "
+            "concurrently). stress: 240 000 / 3 000 000 free-running rounds on real threads (no schedule) of five fixed histories "
             "(follow-up request per stream item through both APIs, two requests of one command, of two legacy tasks, stream item + "
             "event), same linearizability oracle — the only way to reach races inside regions where the code holds a lock (no "
             "schedule point may lie there); detection there is probabilistic (≈7·10^-5 per round for the seeded C08-f). "
